@@ -77,7 +77,9 @@ Definition numval_of (NT : ntable) (t : bytes) : option N :=
   match num_find NT t with Some v => v | None => None end.
 Definition tbl_parse (fl : flavour) (NT : ntable) (t : bytes) : jparse := parse_json fl (numval_of NT) t.
 
-Inductive env := EHttp (e : envelope) | EWs (p : proto) (did_init : bool) (f : option frame).
+(** [early]: the request body ended before the announced Content-Length (net/http reports
+    io.ErrUnexpectedEOF to whoever reads the body to its end) *)
+Inductive env := EHttp (e : envelope) (early : bool) | EWs (p : proto) (did_init : bool) (f : option frame).
 
 Definition dec_pair (s : sexp) : option (bytes * bytes) :=
   match s with SL [SStr k; SStr v] => Some (k, v) | _ => None end.
@@ -104,12 +106,19 @@ Definition dec_env (s : sexp) : option env :=
         match a3 with
         | SL ps =>
             match as_bytes a1, as_bytes a2, map_opt dec_pair ps, as_bytes a4 with
-            | Some m', Some md, Some ps', Some b' => Some (EHttp {| e_method := m'; e_media := md; e_url := ps'; e_body := b' |})
+            | Some m', Some md, Some ps', Some b' => Some (EHttp {| e_method := m'; e_media := md; e_url := ps'; e_body := b' |} false)
             | _, _, _, _ => None
             end
         | _ => None
         end
       else if String.eqb t "ws" then dec_ws a1 a2 a3
+      else None
+  | Some (t, [a1; a2; SL ps; a4; fl]) =>
+      if String.eqb t "http" && is_sym "ends-early" fl then
+        match as_bytes a1, as_bytes a2, map_opt dec_pair ps, as_bytes a4 with
+        | Some m', Some md, Some ps', Some b' => Some (EHttp {| e_method := m'; e_media := md; e_url := ps'; e_body := b' |} true)
+        | _, _, _, _ => None
+        end
       else None
   | _ => None
   end.
@@ -267,7 +276,10 @@ Inductive mres :=
 
 Definition run_model (T : ntable) (e : env) : mres :=
   match e with
-  | EHttp h => match new_request_from_http fixed (tbl_parse StdJson T) h with
+  | EHttp h early =>
+      (* a POST whose branch reads the body to its end (both media types do) meets the read error: 400 *)
+      if early && bytes_eqb (e_method h) m_post && (bytes_eqb (e_media h) mt_json || bytes_eqb (e_media h) mt_graphql) then MReject 400
+      else match new_request_from_http fixed (tbl_parse StdJson T) h with
                | Accept r => MAccept (op_of_request r) (r_ext r)
                | Reject c => MReject c
                end
@@ -282,7 +294,7 @@ Definition run_model (T : ntable) (e : env) : mres :=
 (** the texts the model will ask the table about *)
 Definition needed_texts (e : env) : list bytes :=
   match e with
-  | EHttp h =>
+  | EHttp h _ =>
       if bytes_eqb (e_method h) m_get then
         filter (fun t => negb (is_empty t)) [url_get k_variables (e_url h); url_get k_extensions (e_url h)]
       else if bytes_eqb (e_method h) m_post && bytes_eqb (e_media h) mt_json then [e_body h]
@@ -322,7 +334,7 @@ Definition api_agrees (m : mres) (o : obs) : bool :=
     answered 200 with [http_frame (HttpOK body)] (Content-Type, Content-Length = the body's length);
     a refused one with the Content-Type of [http_frame (HttpError c)]; on a socket the frames
     received for the operation are exactly [ws_frame] of the data / next payloads followed by complete *)
-Definition proto_of_env (e : env) : proto := match e with EWs p _ _ => p | EHttp _ => GraphqlWS end.
+Definition proto_of_env (e : env) : proto := match e with EWs p _ _ => p | EHttp _ _ => GraphqlWS end.
 
 Definition wire_agrees (e : env) (m : mres) (o : obs) : bool :=
   match m, ob_wire o with
@@ -342,7 +354,9 @@ Definition wire_agrees (e : env) (m : mres) (o : obs) : bool :=
 
 Definition well_formed (T : ntable) (e : env) : bool :=
   match e with
-  | EHttp h => http_well_formed (tbl_parse StdJson T) h
+  | EHttp h early =>
+      negb (early && bytes_eqb (e_method h) m_post && (bytes_eqb (e_media h) mt_json || bytes_eqb (e_media h) mt_graphql)) &&
+      http_well_formed (tbl_parse StdJson T) h
   | EWs p di f =>
       di && match f with
             | Some fr => bytes_eqb (f_type fr) (start_type p) && ws_well_formed (tbl_parse StdJson T) f
@@ -401,7 +415,7 @@ Definition refit (T : ntable) (s : sub) : esub :=
                      s_env := e'; s_dec := s_dec s; s_obs := s_obs s; s_raw := s_raw s |};
          e_split_ok := frame_eqb mf (trim_frame hf);
          e_model := run_model T e'; e_wf := well_formed T e' |}
-  | EHttp _ => {| e_sub := s; e_split_ok := true; e_model := run_model T (s_env s); e_wf := well_formed T (s_env s) |}
+  | EHttp _ _ => {| e_sub := s; e_split_ok := true; e_model := run_model T (s_env s); e_wf := well_formed T (s_env s) |}
   end.
 
 (** ** per-submission checks *)
@@ -420,9 +434,17 @@ Definition jparse_eqb (a b : jparse) : bool :=
   | _, _ => false
   end.
 
-Definition flavour_of (e : env) : flavour := match e with EHttp _ => StdJson | EWs _ _ _ => StdJson end.
+Definition flavour_of (e : env) : flavour := match e with EHttp _ _ => StdJson | EWs _ _ _ => StdJson end.
+
+(** roles of a submission inside a per-connection history: "setup" only builds the history (a
+    subscription that stays active, the client's stop) and is not judged; "held-sub" is a start /
+    subscribe of a SUBSCRIPTION whose id is held by an uncompleted subscription: HandleStart drops it
+    ([handle_start] with [subscribed = true]: no frame, nothing executed) *)
+Definition is_setup (s : sub) : bool := String.eqb (s_role s) "setup".
+Definition is_held_sub (s : sub) : bool := String.eqb (s_role s) "held-sub".
 
 Definition oracle_sub (J : jtable) (T : ntable) (s : esub) : option sexp :=
+  if is_setup s then None else
   if negb (forallb (fun t => forallb (fun tok => match num_find T tok with Some _ => true | None => false end)
                                      (num_tokens (List.length t) t)) (s_raw s :: needed_texts (s_env s))) then
     Some (v_bad "number-table-incomplete")
@@ -436,9 +458,17 @@ Definition oracle_sub (J : jtable) (T : ntable) (s : esub) : option sexp :=
   else None.
 
 (** model against implementation on one submission *)
+Definition dropped (o : obs) : bool :=
+  match ob_kind o with KIgnored => true | _ => false end && nothing_executed o &&
+  match ob_wire o with WoWs [] _ => true | WoNone => true | _ => false end.
+
 Definition check_sub (T : ntable) (o : op) (s : esub) : option sexp :=
   let m := e_model s in
-  if negb (dec_agrees m (s_dec s)) then
+  if is_setup s then None
+  else if is_held_sub s then
+    if dec_agrees m (s_dec s) && forallb dropped (s_obs s) then None
+    else Some (v_mismatch ("held-id:" ++ name_of s) [])
+  else if negb (dec_agrees m (s_dec s)) then
     Some (v_mismatch ("decoder:" ++ name_of s) [])
   else if negb (forallb (api_agrees m) (s_obs s)) then
     Some (v_mismatch ("outcome:" ++ name_of s) [])
@@ -478,7 +508,7 @@ Fixpoint entries (T : ntable) (i : nat) (ss : list esub) : list entry :=
   | [] => []
   | s :: r =>
       List.app
-        match accepted_op (e_model s) with
+        match (if is_setup s || is_held_sub s then None else accepted_op (e_model s)) with
         | Some o => map (fun ob => {| en_name := name_of s; en_sub := i; en_op := o; en_pq := pq_key (e_model s); en_obs := ob |}) (s_obs s)
         | None => []
         end
@@ -506,7 +536,7 @@ Fixpoint check_same (es : list entry) : option sexp :=
     (judged on what the implementation's decoders did, not on the model) *)
 Definition same_text_pair (s1 s2 : sub) : option sexp :=
   match s_env s1, s_env s2 with
-  | EHttp h, EWs p true (Some f) =>
+  | EHttp h false, EWs p true (Some f) =>
       if bytes_eqb (e_method h) m_post && bytes_eqb (e_media h) mt_json && is_empty (url_get k_query (e_url h)) &&
          bytes_eqb (f_type f) (start_type p) &&
          match f_payload f with Some t => bytes_eqb t (e_body h) | None => false end then
@@ -551,14 +581,14 @@ Definition classes (T : ntable) (o : op) (is_sub : bool) (ss : list esub) : list
     existsb (fun s1 : esub => existsb (fun s2 : esub =>
        String.eqb (s_label s1) (s_label s2) && negb (String.eqb (s_role s1) "canonical") &&
        match s_env s1, s_env s2 with
-       | EHttp _, EWs _ _ _ =>
+       | EHttp _ _, EWs _ _ _ =>
            match accepted_op (e_model s1), accepted_op (e_model s2) with
            | Some o1, Some o2 => negb (op_eqb o1 o2)
            | _, _ => false
            end
        | _, _ => false
        end) ss) ss in
-  let http_refused := existsb (fun s : esub => match s_env s with EHttp _ => true | _ => false end) refused in
+  let http_refused := existsb (fun s : esub => match s_env s with EHttp _ _ => true | _ => false end) refused in
   let ws_refused := existsb (fun s : esub => match s_env s with EWs _ _ _ => true | _ => false end) refused in
   List.concat [
     (if executed then ["executed"] else ["not-executed"]);
@@ -567,6 +597,9 @@ Definition classes (T : ntable) (o : op) (is_sub : bool) (ss : list esub) : list
     (if is_empty (o_opname o) then [] else ["with-opname"]);
     (if alias_same then ["alias-same-op"] else []); (if alias_other then ["alias-other-op"] else []);
     (if text_diverges then ["same-text-other-op"] else []);
+    (if existsb (fun s : esub => is_held_sub s) ss then ["id-held-by-active-subscription"] else []);
+    (if existsb (fun s : esub => String.eqb (s_label s) "reuse-id" || String.eqb (s_label s) "reuse-id-after-client-complete") ss then ["id-reused"] else []);
+    (if existsb (fun s : esub => match s_env s with EHttp _ true => true | _ => false end) ss then ["body-ends-early"] else []);
     (if http_refused then ["refused-http"] else []); (if ws_refused then ["refused-ws"] else []);
     (if executed || http_refused || ws_refused then ["nontrivial"] else []) ].
 
